@@ -47,9 +47,21 @@ func verifNewEncoder(w io.Writer) *json.Encoder {
 
 func verifEncode(enc *json.Encoder, v any) error {
 	verifRecords++
+	if je, ok := v.(*jsonlEntry); ok {
+		r := verifRec{profile: string(je.ProfileID), device: string(je.DeviceID), fqdn: je.DomainFQDN, qtype: uint16(je.RequestType)}
+		if je.RemoteIP != nil {
+			r.hasIP, r.ip = true, je.RemoteIP.String()
+		}
+		verifEncoded = append(verifEncoded, r)
+	}
 	_, err := verifEncTo.Write([]byte("{\"record\":1}\n"))
 	return err
 }
+
+var verifEncoded []verifRec
+
+// verifLoggedRecords returns what was logged, record by record.
+func verifLoggedRecords(path string) []verifRec { return verifEncoded }
 
 // verifLogLines returns the number of lines and whether the file consists only of
 // complete records written by exactly one Write call each.
